@@ -34,11 +34,53 @@ type WriterArgs struct {
 	Clean  bool   `json:"clean"`  // close the bucket cleanly at the end
 	DropY  bool   `json:"dropY"`  // drop collection 2 after writing to it (its lastCas disappears with it)
 	SleepAtEnd int `json:"sleepAtEnd"` // ms to idle at the end (external kill window)
+	Profile    string `json:"profile"` // "" = every entry point; "withmeta" = SetWithMeta/DeleteWithMeta (multi-statement transactions) with a few plain writes
 }
 
 type IntentLine struct {
 	I  int   `json:"i"`
 	Op kv.Op `json:"op"`
+}
+
+// AdminState is the bucket-level state admin operations change: design documents of the default collection
+// (name -> canonical JSON of its views) and the list of collections.
+type AdminState struct {
+	DDocs map[string]string `json:"ddocs"`
+	Colls []string          `json:"colls"`
+}
+
+type AdminLine struct {
+	I     int        `json:"i"`
+	Kind  string     `json:"kind"`
+	After AdminState `json:"after"`
+}
+
+func ddocJSON(d *sgbucket.DesignDoc) string {
+	names := make([]string, 0, len(d.Views))
+	for n := range d.Views {
+		names = append(names, n)
+	}
+	sort.Strings(names)
+	s := ""
+	for _, n := range names {
+		s += fmt.Sprintf("%s:%q/%q;", n, d.Views[n].Map, d.Views[n].Reduce)
+	}
+	return s
+}
+
+func (a AdminState) clone() AdminState {
+	n := AdminState{DDocs: map[string]string{}, Colls: append([]string(nil), a.Colls...)}
+	for k, v := range a.DDocs {
+		n.DDocs[k] = v
+	}
+	sort.Strings(n.Colls)
+	return n
+}
+
+var adminDDocs = []*sgbucket.DesignDoc{
+	{Language: "javascript", Views: sgbucket.ViewMap{"a": sgbucket.ViewDef{Map: `function(doc, meta) { emit(meta.id, 1); }`, Reduce: "_count"}}},
+	{Language: "javascript", Views: sgbucket.ViewMap{"a": sgbucket.ViewDef{Map: `function(doc, meta) { emit(doc.n, null); }`}, "b": sgbucket.ViewDef{Map: `function(doc, meta) { emit(meta.id, null); }`}}},
+	{Language: "javascript", Views: sgbucket.ViewMap{"c": sgbucket.ViewDef{Map: `function(doc, meta) { emit(1, 1); }`, Reduce: "_sum"}, "b": sgbucket.ViewDef{Map: `function(doc, meta) { emit(meta.id, 2); }`}, "d": sgbucket.ViewDef{Map: `function(doc, meta) { emit(2, 2); }`}}},
 }
 
 type AckLine struct {
@@ -104,19 +146,85 @@ func WriterMain(arg string) int {
 	sim.OnAck = func(st *kv.Step, doc *kv.Doc) {
 		emit(out, "ACK", AckLine{I: i, OK: st.Res.OK(), Obs: st.PostObs, Doc: *doc})
 	}
+	admin := AdminState{DDocs: map[string]string{"cd": ddocJSON(crashViews)}}
+	for ci := 0; ci < 3; ci++ {
+		admin.Colls = append(admin.Colls, kv.CollNames[ci].ScopeName()+"."+kv.CollNames[ci].CollectionName())
+	}
+	adminN := 0
+	doAdmin := func() {
+		adminN++
+		next := admin.clone()
+		kind := ""
+		var run func() error
+		switch r.Intn(4) {
+		case 0, 1:
+			dd := adminDDocs[r.Intn(len(adminDDocs))]
+			kind = "PutDDoc"
+			next.DDocs["adm"] = ddocJSON(dd)
+			run = func() error { return col0.PutDDoc(context.Background(), "adm", dd) }
+		case 2:
+			if _, ok := admin.DDocs["adm"]; !ok {
+				return
+			}
+			kind = "DeleteDDoc"
+			delete(next.DDocs, "adm")
+			run = func() error { return col0.DeleteDDoc("adm") }
+		default:
+			name := sgbucket.DataStoreNameImpl{Scope: "adm", Collection: fmt.Sprintf("c%d", adminN%2)}
+			full := name.Scope + "." + name.Collection
+			present := false
+			for _, c := range admin.Colls {
+				if c == full {
+					present = true
+				}
+			}
+			if present {
+				kind = "DropDataStore"
+				var keep []string
+				for _, c := range next.Colls {
+					if c != full {
+						keep = append(keep, c)
+					}
+				}
+				next.Colls = keep
+				run = func() error { return b.DropDataStore(name) }
+			} else {
+				kind = "CreateDataStore"
+				next.Colls = append(next.Colls, full)
+				sort.Strings(next.Colls)
+				run = func() error { return b.CreateDataStore(context.Background(), name) }
+			}
+		}
+		emit(out, "AINTENT", AdminLine{I: adminN, Kind: kind, After: next})
+		if err := run(); err == nil {
+			admin = next
+			emit(out, "AACK", AdminLine{I: adminN, Kind: kind, After: next})
+		} else {
+			emit(out, "AFAIL", AdminLine{I: adminN, Kind: kind, After: admin})
+		}
+	}
 	g := &kv.Gen{R: r, Keys: []string{"k0", "k1", "k2"}, Colls: 3, Bkts: 1, Hnd: 1}
 	prof := kv.Uniform(3).With(kv.KPurge, 0, kv.KDropColl, 0, kv.KSetMeta, 6, kv.KDelMeta, 4)
+	if a.Profile == "withmeta" {
+		prof = kv.Profile{kv.KSetMeta: 10, kv.KDelMeta: 5, kv.KSet: 3, kv.KDelete: 1}
+	}
 	for i = 0; i < a.Ops; i++ {
 		op := g.Random(prof)
 		if op.Exp != 0 && op.Exp < 60*60*24*30 {
 			op.Exp = 2000000000 // absolute, far future: relative expiries would differ between model time and reopen time
+		}
+		if op.Kind == kv.KUpdate && op.Mode == "exponly" {
+			op.Mode = "set" // keeping a raw body while flagging it JSON makes the view's JS side fail to parse it: unpinned corner (DESIGN §3.11)
 		}
 		if op.CbExp != nil && *op.CbExp != 0 && *op.CbExp < 60*60*24*30 {
 			e := uint32(2000000001)
 			op.CbExp = &e
 		}
 		sim.Do(op)
-		if i%5 == 4 || a.Seed%2 == 0 {
+		if a.Profile == "admin" || (a.Profile == "" && i%6 == 5) {
+			doAdmin()
+		}
+		if i%5 == 4 || a.Seed%2 == 0 || a.Profile == "withmeta" {
 			// bring the view index up to date (after every call in half of the histories), so that a crash which
 			// commits a document without its collection's high-water mark shows as a stale view after reopen
 			_, _ = col0.View(context.Background(), "cd", "all", map[string]interface{}{})
@@ -169,6 +277,7 @@ type ReaderOut struct {
 	UUID     string              `json:"uuid"`
 	Colls    []string            `json:"colls"`
 	DDocs    []string            `json:"ddocs"`
+	DDocDefs map[string]string   `json:"ddocDefs"`
 	Docs     map[string]kv.Obs   `json:"docs"` // "c<coll>/<key>"
 	ViewAll  []string            `json:"viewAll"`
 	ViewErr  string              `json:"viewErr,omitempty"`
@@ -246,8 +355,11 @@ func ReaderMain(arg string) int {
 		}, nil)
 	}
 	if dd, err := cols[0].GetDDocs(); err == nil {
-		for n := range dd {
+		out.DDocDefs = map[string]string{}
+		for n, d := range dd {
 			out.DDocs = append(out.DDocs, n)
+			d := d
+			out.DDocDefs[n] = ddocJSON(&d)
 		}
 		sort.Strings(out.DDocs)
 	}
